@@ -43,7 +43,7 @@ claims = {
  "C06": dict(level="proof",
    text=("Descriptor shuffle of forkAndExecInChild proved with quantified loop invariants over the ghost descriptor table for all lists (length, order, repeats, close markers, overlaps with the scratch area and with the sync/exec descriptors): "
          "at exec slot k holds the caller's k-th file with CLOEXEC clear (or is closed for a marker), every descriptor >= len is CLOEXEC; frame: no store to caller-visible memory (found and fixed: Runner.ExecFile write-back); prepareFds."),
-   note=TRUST + "A-FD: every descriptor open in the launching process is CLOEXEC. For the container init this is discharged in part: closeOnExecAllFds marks every entry of the /proc/self/fd listing close-on-exec, stdio included (loop invariant over the listing), and handleExecve marks the received descriptors (closeOnExecFds); that the listing is complete and that Go's runtime opens its own descriptors CLOEXEC is assumed. Listed descriptors differ from the fresh socketpair. The container's control socket is marked close-on-exec when it is wrapped (unixsocket.NewSocket).",
+   note=TRUST + "A-FD: every descriptor open in the launching process is CLOEXEC. For the container init this is discharged in part: Init calls closeOnExecAllFds before it wraps the control socket on descriptor 3 (call-site obligation); closeOnExecAllFds marks every entry of the /proc/self/fd listing close-on-exec, stdio included (loop invariant over the listing), and handleExecve marks the received descriptors (closeOnExecFds); that the listing is complete and that Go's runtime opens its own descriptors CLOEXEC is assumed. Listed descriptors differ from the fresh socketpair. The container's control socket is marked close-on-exec when it is wrapped (unixsocket.NewSocket).",
    design_ref="DESIGN.md §4 C06"),
  "C07": dict(level="proof",
    text=("Child side of the sync gate (forkAndExecInChild, model K): exec is reachable with a sync callback configured only after the ready word was written to and the ack read from the sync socket (same open file), in that order; "
@@ -89,8 +89,8 @@ claims = {
    note=TRUST + "kernel model T for process_vm_readv / PEEKDATA. Also covered: every function of runner/ptrace/handle_linux.go that runs on tracee-controlled registers and strings (Handle, the check* family, absPath/absPathAt, getString*, checkProcPath, isAllowedProcAlias, isDangerousProcPath, normalizeProcMagicPath, resolveTraceePath with its 40-step bound, resolveTraceePathOnce, getProcCwd/getProcFd) - no index/slice/nil/overflow failure for any input, with strings/filepath/os helpers as assumed contracts; readOpenHowFlags stays trusted. Every ptrace stop that does not end the run resumes the tracee (continue count +1) and a stop signal other than SIGXCPU/SIGXFSZ never decides the verdict. 'Never stops making progress' is otherwise proved as loop termination (decreases / bounded counters) of the tracer-side loops only; blocking in the kernel is out of reach.",
    design_ref="DESIGN.md §4 C15"),
  "C16": dict(level="proof",
-   text=("Arming only (thin): Builder.startContainer starts the container init with SysProcAttr.Pdeathsig == SIGKILL on the path that reaches exec.Cmd.Start; the ptrace option word installed for every traced pid before its first continue contains PTRACE_O_EXITKILL (C03 obligations); the container serve loop never returns nil (every transport error ends it)."),
-   note=TRUST + "that Pdeathsig/EXITKILL/pid-namespace teardown kill everything 'within bounded time' whenever the controller dies is kernel behaviour and a statement over crash instants; Init's deferred os.Exit and the host goroutines are not under contract. This is a claim about the arming calls, nothing more.",
+   text=("Arming only (thin): Builder.startContainer starts the container init with SysProcAttr.Pdeathsig == SIGKILL on the path that reaches exec.Cmd.Start; the ptrace option word installed for every traced pid before its first continue contains PTRACE_O_EXITKILL (C03 obligations); the container serve loop never returns nil (every transport error ends it), and container.Init, once it is the container init, never returns to its caller: every path ends in os.Exit (Init$1 ensures false)."),
+   note=TRUST + "that Pdeathsig/EXITKILL/pid-namespace teardown kill everything 'within bounded time' whenever the controller dies is kernel behaviour and a statement over crash instants; the host goroutines are not under contract. This is a claim about the arming calls, nothing more.",
    design_ref="DESIGN.md §10.2"),
  "C19": dict(level="proof",
    text=("Receive side (model S: recvmsg installs control-data descriptors on arrival): RecvMsg either returns exactly the arrived descriptors in order, none of them closed, or returns an error with no descriptors and every arrived descriptor closed - on every path, including truncated messages (found and fixed: a truncated message leaked its descriptors) and parser rejections; parseMsg and its deferred clean-up, closeReceivedFds. "
